@@ -112,6 +112,8 @@ def family(name, tier):
         yield from depth2(tier)
     elif name == "depth3":
         yield from depth3(tier)
+    elif name == "medium":
+        yield from T.medium(tier)
     elif name == "colliders":
         # unions / structures over variants whose length sets differ but agree in min, max and residues mod 32: every representation's
         # length must still be an element of the type's bit_length_set
@@ -145,7 +147,7 @@ ALIAS_POOL = [
 
 
 def plan(tier):
-    fams = [("scalars", 8), ("depth1s", 24), ("depth1u", 16), ("depth2", 32), ("colliders", 4), ("nested-arrays", 4)]
+    fams = [("scalars", 8), ("depth1s", 24), ("depth1u", 16), ("depth2", 32), ("colliders", 4), ("nested-arrays", 4), ("medium", 8)]
     if tier != "quick":
         fams.append(("depth3", 32))
     shards = [{"family": n, "part": p, "parts": k} for n, k in fams for p in range(k)]
